@@ -9,6 +9,7 @@ negative control).
 import copy
 import json
 import random
+import re
 
 from engine import tlc, core, tracecheck
 
@@ -44,23 +45,33 @@ def vias(behs):
   return c
 
 
-def sample(behs, n, seed, need):
-  """seeded sample of n behaviours that still exercises every spec action in `need` (last step's `via`)"""
-  if len(behs) <= n:
-    return behs
-  rnd = random.Random(seed)
-  idx = list(range(len(behs)))
-  rnd.shuffle(idx)
-  pick = set(idx[:n])
-  have = set(behs[i][-1].get("via") for i in pick)
-  for v in need:
-    if v not in have:
-      for i in idx[n:]:
-        if behs[i][-1].get("via") == v:
-          pick.add(i)
-          have.add(v)
-          break
-  return [behs[i] for i in sorted(pick)]
+_VIA = re.compile(r'via\\":\s*\\"([A-Za-z/-]+)')
+
+
+def last_via(raw):
+  """name of the spec action of the LAST step of an exported behaviour, read off the undecoded JSON text"""
+  m = _VIA.findall(raw)
+  return m[-1] if m else "?"
+
+
+def sample(raws, n, seed, need):
+  """decode a seeded sample of n exported behaviours (all of them if there are fewer) that still ends in every
+  spec action named in `need` at least once; raws = undecoded PrintT payloads"""
+  idx = list(range(len(raws)))
+  if len(raws) > n:
+    rnd = random.Random(seed)
+    rnd.shuffle(idx)
+    pick = set(idx[:n])
+    have = set(last_via(raws[i]) for i in pick)
+    for v in need:
+      if v not in have:
+        for i in idx[n:]:
+          if last_via(raws[i]) == v:
+            pick.add(i)
+            have.add(v)
+            break
+    idx = sorted(pick)
+  return [sort_exp(json.loads(json.loads(raws[i]))) for i in idx]
 
 
 # what the adapters need to know about each configuration (mirrors the .cfg files)
@@ -132,13 +143,13 @@ def run(ctx):
              ("MCArp", "MCA_mid.cfg", ARP_ACTIONS + ["ArpInDemoteStatic", "ArpInUseStale", "Set", "Del"], "ArpResp mid (longer timeout, 2 buffers, console)")]
 
   # 2. spec -> code
-  nsim = 40 if quick else 800
-  ex = [("MCL3", "EX_edges_t5.cfg", {}), ("MCArp", "EXA_edges_t1.cfg", {}),
+  nsim = 30 if quick else 800
+  ex = [("MCL3", "EX_edges_t5.cfg", {}), ("MCL3", "EX_edges_t45.cfg", {}), ("MCArp", "EXA_edges_t1.cfg", {}),
         ("MCL3", "EX_sim.cfg", dict(simulate=dict(num=nsim), depth=61, seed=ctx.seed + 1)),
         ("MCArp", "EXA_sim.cfg", dict(simulate=dict(num=nsim), depth=61, seed=ctx.seed + 2))]
   if not quick:
     ex += [("MCL3", "EX_edges_noarp.cfg", {}), ("MCArp", "EXA_edges_nolearn.cfg", {}),
-           ("MCL3", "EX_edges_t45.cfg", {}), ("MCL3", "EX_edges_max2.cfg", {}), ("MCL3", "EX_edges_gw.cfg", {}),
+           ("MCL3", "EX_edges_max2.cfg", {}), ("MCL3", "EX_edges_gw.cfg", {}),
            ("MCArp", "EXA_edges_t5.cfg", {})]
   res = _tlc_all(ctx, jobs, ex)
   lap("TLC: model checking + export")
@@ -146,14 +157,13 @@ def run(ctx):
   for (m, c, kw), r in zip(ex, res):
     l3 = m == "MCL3"
     sim = "simulate" in kw
-    behs = [sort_exp(b) for b in r.tagged("H" if sim else "T")]
-    if (sim and len(behs) < nsim // 2) or not behs:
-      raise tlc.TLCError("%s %s exported %d behaviours" % (m, c, len(behs)))
-    total = len(behs)
-    if not sim:
-      need = (["IpWaitForget", "IpWait", "TimerFires", "ArpAnswer"] if l3 and "noarp" not in c else
-              ["ArpInDemoteStatic", "ArpInUseStale", "ArpInVlanMangled", "ArpInPlain"] if not l3 and "nolearn" not in c else [])
-      behs = sample(behs, 2500 if quick else 16000, ctx.seed, need)
+    raws = r.tagged_raw("H" if sim else "T")
+    total = len(raws)
+    if (sim and total < nsim // 2) or not total:
+      raise tlc.TLCError("%s %s exported %d behaviours" % (m, c, total))
+    need = ([] if sim else ["IpWaitForget", "IpWait", "TimerFires", "ArpAnswer"] if l3 and "noarp" not in c else
+            ["ArpInDemoteStatic", "ArpInUseStale", "ArpInVlanMangled", "ArpInPlain"] if not l3 and "nolearn" not in c else [])
+    behs = sample(raws, total if sim else (1500 if l3 else 2000) if quick else 16000, ctx.seed, need)
     if sim:
       params = dict(L3_REAL if l3 else ARP_REAL)
     else:
